@@ -74,6 +74,7 @@ Definition stage_ok (g : stage) : Prop :=
   | GBatched n => 1 <= n
   | GOla _ hop _ => 1 <= hop
   | GResample _ _ new => 1 <= new
+  | GResampleTV _ _ new => 1 <= new
   | _ => True
   end.
 
@@ -101,6 +102,7 @@ Proof.
   - apply one_src_safe; [apply reads0_mcycle|intros _; apply mcycle_safe].
   - apply one_src_safe; [apply reads0_mzcross|intros _; apply mzcross_safe].
   - apply one_src_safe; [apply reads0_omap, reads0_mbatched|intros _; apply safe_omap, mbatched_safe; lia].
+  - apply mresample_tv_safe; unfold rs_one, rs_stp; lia.
 Qed.
 
 (* ---------------------------------------------------------------- monotone needs *)
@@ -131,13 +133,21 @@ Proof.
   lia.
 Qed.
 
+Lemma mono_resample_tv c n0 idx0 thr stp one : (0 < one)%Z -> (0 <= stp)%Z ->
+  mono (need_resample_tv c n0 idx0 thr stp one).
+Proof.
+  intros H1 Hs a b H. unfold need_resample_tv.
+  pose proof (mono_resample n0 idx0 thr stp one H1 Hs a b H). destruct (c 0), (c 1); lia.
+Qed.
+
 Lemma sneedc_mono g c : stage_ok g -> mono (sneedc g c).
 Proof.
   destruct g; intro Hok; cbn [sneedc]; cbn [stage_ok] in Hok; try contradiction;
     try (apply one_src_mono);
     first [apply mono_id | apply mono_zipc | apply mono_skip | apply mono_limit | apply mono_chainc
           | apply mono_pad | apply mono_blocks | apply mono_ola | apply need_tee_mono
-          | apply mono_resample; unfold rs_one, rs_stp; lia].
+          | apply mono_resample; unfold rs_one, rs_stp; lia
+          | apply mono_resample_tv; unfold rs_one, rs_stp; lia].
 Qed.
 
 (* ---------------------------------------------------------------- pipelines of any depth *)
@@ -245,7 +255,8 @@ Lemma sneedc_zero g c : sneedc g c 0 = 0.
 Proof.
   destruct g; cbn [sneedc]; unfold one_src, need_chainc;
     repeat (match goal with |- context [if ?b then _ else _] => destruct b end);
-    try reflexivity; try apply need_tee_zero; unfold need_limit; try lia.
+    try reflexivity; try apply need_tee_zero; unfold need_limit, need_resample_tv; try lia;
+    repeat (match goal with |- context [if ?b then _ else _] => destruct b end); reflexivity.
 Qed.
 
 Fixpoint pbound (b : nat) (rest : list stage) : nat :=
